@@ -61,8 +61,8 @@ CHECKS = {
              "none/sync/async reset), every wrapper stack of depth <= 3 over 8 wrappers and all register placements are "
              "replayed on the real classes, comparing every register after every event.",
         note="Trusted: TLC, the syntactic design renderer, pysim as executor. Input/control/reset changes never coincide "
-             "with a clock edge in one testbench write (a testbench race in pysim). Memory ports under wrappers are not "
-             "in this design family."),
+             "with a clock edge in one testbench write (a testbench race in pysim). The memory under the wrappers is one "
+             "row with a write port, a read port and a transparent read port (always enabled)."),
     "C11": dict(
         category="model_checking", design_ref="DESIGN.md section 4 (C11)",
         technique="TLA+ memory semantics (AmMemOps: declarative per-bit contract + operational step function, AmMem state "
@@ -78,7 +78,7 @@ CHECKS = {
         note="Trusted: TLC, pysim as executor, the recording testbench (inputs applied before a single Cat(clkA, clkB) clock "
              "event; outputs and rows sampled after it). Unspecified behaviour (read beyond depth, colliding writes, "
              "cross-domain read/write at a coincident edge, sync output before its first capture) is generated but not "
-             "asserted. Simulator/RTLIL agreement of memories is not evaluated (C04 excludes memories)."),
+             "asserted. Simulator/RTLIL agreement of memories is evaluated by C04 (memory designs); here every configuration only has to pass rtlil.convert."),
     "C13": dict(
         category="model_checking", design_ref="DESIGN.md section 4 (C13)",
         technique="TLA+ spec (FifoObs contract, implementation-structured FifoAsyncImpl, FifoTrace) model-checked by TLC with "
@@ -155,11 +155,12 @@ CHECKS = {
              "As C01-C03 bind pysim to the language specification, this closes the triangle spec = pysim = RTLIL.",
         note="Trusted: TLC, the RTLIL reader and the structural flattening (hierarchy expansion, sigspec to net lists), "
              "Rtlil.tla as a rendering of the Yosys cell library documentation. Values < 2^30; x/z digits read as 0; "
-             "memories, $print/$check text, foreign instances and inout ports are not evaluated."),
+             "$print/$check text, foreign instances and inout ports are not evaluated (memories are: $mem_v2/$memrd_v2/$memwr_v2)."),
     "C05": dict(
         category="model_checking", design_ref="DESIGN.md section 4 (C05)",
         technique="same TLC-enumerated AmExpr programs as C01, evaluated by the testbench tree walker ctx.get(expr); "
-                  "write side: AmLhs target programs replayed with ctx.set",
+                  "write side: AmLhs target programs replayed with ctx.set on signals and on memory rows; "
+                  "shape-castable round trip (from_bits / const) over the cases of AmShapeCases",
         text="Every AmExpr program TLC enumerates (see C01) is also evaluated with ctx.get(expr) inside a testbench for "
              "every valuation; the value must equal TLC's table, which C01 binds to the compiled circuit, so the two "
              "interpreters are compared through the specification. Zero-width selectors and operands are in the box.",
